@@ -379,6 +379,7 @@ func c03(p *model.Prog, r *report.Result) {
 	c03r11(p, r)
 	w6PullAlive(p, r, "C03.R12")
 	w7StatPubEveryCall(p, r, "C03.R13")
+	w8NotifySessionId(p, r, "C03.R14")
 }
 
 // c03r3 checks the notification pairing per protocol server.
